@@ -7,13 +7,13 @@ pub mod conc {
     use std::sync::Arc;
     use std::time::{Duration, Instant};
 
-    type CN = Node<u64, i64, u64>;
+    type CN = Node<Kt, i64, Et>;
 
     /// threads hammer queries and mutations on two shared nodes; returns "ok" or a description of the stall
     pub fn stress(which: &str, millis: u64) -> String {
-        let a: CN = Node::new(1, 0);
-        let b: CN = Node::new(2, 0);
-        a.connect(&b, 5);
+        let a: CN = Node::new(Kt::of(1), 0);
+        let b: CN = Node::new(Kt::of(2), 0);
+        a.connect(&b, Et::of(5));
         let stop = Arc::new(AtomicBool::new(false));
         let progress: Vec<Arc<AtomicU64>> = (0..3).map(|_| Arc::new(AtomicU64::new(0))).collect();
         let mut handles = Vec::new();
@@ -33,16 +33,16 @@ pub mod conc {
                         }
                         // writer: connect then disconnect keeps the graph small
                         ("queries", _) => {
-                            a.connect(&b, i);
-                            let _ = a.disconnect(&2);
+                            a.connect(&b, Et::of(i));
+                            let _ = a.disconnect(&Kt::of(2));
                         }
                         ("disconnect", 0) => {
-                            a.connect(&b, i);
-                            let _ = a.disconnect(&2);
+                            a.connect(&b, Et::of(i));
+                            let _ = a.disconnect(&Kt::of(2));
                         }
                         ("disconnect", 1) => {
-                            b.connect(&a, i);
-                            let _ = b.disconnect(&1);
+                            b.connect(&a, Et::of(i));
+                            let _ = b.disconnect(&Kt::of(1));
                         }
                         _ => {
                             query_all(&a);
@@ -127,14 +127,14 @@ pub mod conc {
         let node = |i: &String| n[crate::pusize(i)].clone();
         match st[0].as_str() {
             "con" => {
-                node(&st[1]).connect(&node(&st[2]), crate::pu64(&st[3]));
+                node(&st[1]).connect(&node(&st[2]), Et::of(crate::pu64(&st[3])));
                 "ok".to_string()
             }
-            "try" => match node(&st[1]).try_connect(&node(&st[2]), crate::pu64(&st[3])) {
+            "try" => match node(&st[1]).try_connect(&node(&st[2]), Et::of(crate::pu64(&st[3]))) {
                 Ok(()) => "ok".to_string(),
                 Err(_) => "err_exists".to_string(),
             },
-            "dis" => match node(&st[1]).disconnect(&crate::pu64(&st[2])) {
+            "dis" => match node(&st[1]).disconnect(&Kt::of(crate::pu64(&st[2]))) {
                 Ok(e) => format!("ok_{}", e),
                 Err(_) => "err_notfound".to_string(),
             },
@@ -142,7 +142,7 @@ pub mod conc {
                 node(&st[1]).isolate();
                 "ok".to_string()
             }
-            "conn" => format!("{}", node(&st[1]).is_connected(&crate::pu64(&st[2])) as u8),
+            "conn" => format!("{}", node(&st[1]).is_connected(&Kt::of(crate::pu64(&st[2]))) as u8),
             other => conc_query(other, &node(&st[1])),
         }
     }
@@ -338,7 +338,7 @@ pub mod conc {
             match one {
                 Ok(x) => snap.push_str(&format!(" {}", x)),
                 Err(_) => {
-                    pois.push(*n.key());
+                    pois.push(n.key().n());
                     snap.push_str(&format!(" [{} poisoned]", n.key()));
                 }
             }
